@@ -12,8 +12,13 @@ THEOREMS = [
     {"name": "C07_unreachable_join_fails / C07_unreachable_means", "strength": "F",
      "text": "completing (not by cancel) with an unready, unsatisfiable staged join fails the workflow and hands the joins "
              "over to be logged"},
-    {"name": "(tested, not proved) ready flag = barrier status at the last arrival; once per satisfaction (refuted for "
-             "join: n below the inbound count by known finding D1)", "strength": "T", "text": "monitor c07"},
+    {"name": "C07b_ready_flag_is_barrier_status / C07b_ready_flag_read_back", "strength": "F",
+     "text": "whenever a satisfied transition arrives at a task, the staged entry's ready flag afterwards equals "
+             "(inbound criteria status = satisfied) computed on the state with this arrival merged"},
+    {"name": "C07b_ready_kept_outside_events / _by_prefix / _by_decision", "strength": "F",
+     "text": "nothing else rewrites the flag of an existing entry, and every entry created elsewhere is ready"},
+    {"name": "(tested) once per satisfaction -- refuted for join: n below the inbound count by known finding D1",
+     "strength": "T", "text": "monitor c07"},
 ]
 TRUSTED_BASE = common.TRUSTED_BASE_COMMON
 ASSUMPTIONS = ["known finding D1: join: n with n below the number of inbound tasks re-fires on a late arrival"]
